@@ -138,8 +138,8 @@ Proof.
 Qed.
 
 (* ---- arguments ---- *)
-Definition rlive (w : world) (r : rarg) : Prop := match r with RRef i => In i (dom (heap w)) | RTmp _ => True end.
-Definition rval (w : world) (r : rarg) : Z := match r with RRef i => val w i | RTmp z => z end.
+Definition rlive (w : world) (r : rarg) : Prop := match r with RRef i | RCopy i => In i (dom (heap w)) | RTmp _ => True end.
+Definition rval (w : world) (r : rarg) : Z := match r with RRef i | RCopy i => val w i | RTmp z => z end.
 
 Lemma in_all_ids st y c i : Inv st -> getv (svars st) y = Some c -> In i (cids c) -> In i (dom (heap (sw st))).
 Proof.
@@ -204,7 +204,7 @@ Lemma with_arg_ok {C} r (body : id -> M C) (ids : C -> list id) (bks : C -> list
   exists c w3, with_arg r body w = Ok (c, w3) /\ trans w w3 X (ids c) B (bks c) /\
      exists w1 i, same_on w w1 /\ val w1 i = rval w r /\ Post w1 i c w3.
 Proof.
-  intros W H Hb L ST BD. destruct r as [z|i]; cbn [with_arg rlive rval] in *.
+  intros W H Hb L ST BD. destruct r as [z|i|i]; cbn [with_arg rlive rval] in *.
   - destruct (mk_val_ok w z W) as (E1 & T1 & V1). run E1.
     set (t := nxt w) in *. set (w1 := w_mk w z (EVal t z)) in *.
     assert (S1 : same_on w w1).
@@ -229,6 +229,27 @@ Proof.
   - destruct (BD w i W H Hb L eq_refl (same_on_refl w)) as (c & w2 & E2 & T2 & P2).
     exists c, w2. split; [exact E2|]. split; [exact T2|].
     exists w, i. split; [apply same_on_refl|]. split; auto.
+  - destruct (mk_copy_ok w i W L) as (E1 & T1 & V1). run E1.
+    set (t := nxt w) in *. set (w1 := w_mk w (val w i) (ECopy t i)) in *.
+    assert (S1 : same_on w w1).
+    { intros j I. eapply trans_keep; [exact T1 | exact I | tauto]. }
+    assert (H1 : holds w1 X) by (apply (holds_keep _ _ _ _ _ _ X T1 H)).
+    assert (Hb1 : holdsb w1 B) by (eapply holdsb_frame0; eauto).
+    destruct (BD w1 t ltac:(twf T1) H1 Hb1 (mk_live w (val w i) _) V1 S1) as (c & w2 & E2 & T2 & P2). run E2.
+    assert (Nt : ~ In t X).
+    { intro J. apply (holds_lt _ _ _ W H) in J. subst t. lia. }
+    assert (It2 : In t (dom (heap w2))) by (eapply trans_live; [exact T2 | apply mk_live | exact Nt]).
+    destruct (destroy_ok w2 t ltac:(twf T2) It2) as [E3 T3]. run E3.
+    exists c, (w_destroy w2 t). split; [reflexivity|].
+    assert (T12 : trans w w2 X (t :: ids c) B (bks c)).
+    { eapply (trans_seq X [t] B [] _ _ _ _ _ _ _ _ _ _ _ _ _ _ _ T1 T2); msolve. }
+    split.
+    + eapply (trans_seq [] (ids c) [] (bks c) _ _ _ _ _ _ _ _ _ _ _ _ _ _ _ T12 T3); msolve.
+    + exists w1, t. split; [exact S1|]. split; [exact V1|].
+      eapply ST; [exact P2|]. intros j J.
+      eapply trans_val; [exact T3 | eapply in_new; [exact T12 | exact H | right; exact J] |].
+      intros [Q|[]]. subst j.
+      pose proof (holds_nodup _ _ ltac:(twf T2) (trans_holds _ _ _ _ _ _ T12 H)) as ND. inversion ND. tauto.
 Qed.
 
 (* ---------------------------------------------------------------------------------------- *)
@@ -628,9 +649,9 @@ Proof.
   - intros w1 i c w2 w3 [P1 P2] K. split; auto. rewrite <- P2. apply nabs_ext. exact K.
   - intros w1 i W1 H1 Hb1 I1 V1 S1.
     assert (Lv1 : rlive w1 rv).
-    { destruct rv; cbn [rlive] in *; auto. apply S1. exact Lv. }
+    { destruct rv; cbn [rlive] in *; auto; apply S1; exact Lv. }
     assert (Rv1 : rval w1 rv = rval w rv).
-    { destruct rv; cbn [rval rlive] in *; auto. apply S1. exact Lv. }
+    { destruct rv; cbn [rval rlive] in *; auto; apply S1; exact Lv. }
     destruct (with_arg_ok rv (fun vr => nc_insert n p i (VRef vr)) nids nblks w1 (nids n) (nblks n)
                 (fun w2 j c w4 => ckind c = ckind n /\ nabs w4 c = spec_ins (ckind n) (nabs w2 n) p (val w2 i) (val w2 j)) W1 H1 Hb1 Lv1)
       as (c' & w4 & E & T & w2 & j & S2 & V2 & K & P).
@@ -665,10 +686,13 @@ Proof.
   - (* HashSet *) subst rv. cbn [with_arg]. rewrite <- K.
     apply (ins_with_key n (ins_p (ckind n) p) rk (VRef 0) w); auto; rewrite K; auto.
   - (* PoolList *) rewrite <- K.
-    destruct rv as [z|i]; cbn [rlive rval] in *.
+    destruct rv as [z|i|i]; cbn [rlive rval] in *.
     + assert (P1 : has_key (ckind n) = true -> In 0 (dom (heap w))) by (rewrite K; cbn; congruence).
       assert (P3 : dup_assign (ckind n) = true -> exists s, VInt z = VRef s) by (rewrite K; cbn; congruence).
       destruct (nc_insert_ok n PBack 0 (VInt z) w W H Hb P1 (fun _ => Logic.I) P3) as (c' & w' & E & T & K' & A).
+      exists c', w'. split; [exact E|]. split; [exact T|]. split; [exact K'|]. rewrite A, K. reflexivity.
+    + (* the by-value parameter: a copy around the call *)
+      destruct (ins_with_val n PBack (RCopy i) w W H Hb Lv) as (c' & w' & E & T & K' & A); [rewrite K; reflexivity|].
       exists c', w'. split; [exact E|]. split; [exact T|]. split; [exact K'|]. rewrite A, K. reflexivity.
     + assert (P1 : has_key (ckind n) = true -> In 0 (dom (heap w))) by (rewrite K; cbn; congruence).
       assert (P3 : dup_assign (ckind n) = true -> exists s, VRef i = VRef s) by (intros _; eauto).
